@@ -29,75 +29,73 @@ Theorem C01_optimise_den : forall sigma cden (t : tree Z),
 Proof. exact optimise_den. Qed.
 Print Assumptions C01_optimise_den.
 
-From T4V Require Import C01.ProofsT4.
+From T4V Require Import C01.ProofsT4 C01.ProofsCells C01.ProofsPrune.
 
 (* pot_to_t4_cell.  State: [inv] = every key of the table is <= the counter;
-   [fresh] = the node ids of the tree (given by pot_flag) are distinct, not yet
-   in the table and <= the counter; [sem] = each entry of the surface cache is an
-   operator-free volume denoting its literal, each entry of the cell-reference
-   cache denotes its cell.  [cref] is convert_cellref, specified by the same
-   post-condition (discharged for the real convert_cellref in C01_convert_cellref).
-   Conclusion: earlier volumes are untouched (extends: the frame), the counter
-   grows, new keys are node ids of the tree or fresh counter values, and - when
-   the resulting table has no None operand - the caches stay coherent and the
-   returned id denotes the tree for the sense assignment sigma (a None result
-   means the tree is empty at sigma). *)
+   [fresh] = the node ids of the tree (given by pot_flag) are distinct, not yet in
+   the table and <= the counter; [nonone] = no operand of the table is None;
+   [sem] = each entry of the surface cache is an operator-free volume denoting its
+   literal, each entry of the cell-reference cache denotes its cell.  [cref] is
+   convert_cellref, specified by the same contract (discharged for the real
+   convert_cellref in C01_convert_cellref).  Conclusion: a volume id is returned
+   that denotes the tree at sigma; earlier volumes are untouched (extends: the
+   frame), the counter grows, new keys are node ids of the tree or fresh counter
+   values, the table still has no None operand and the caches stay coherent. *)
 Theorem C01_to_t4_cell_sound : forall sigma cden cref orig u0 u1,
   0 < u0 -> 0 < u1 -> consistent sigma u0 u1 ->
   (forall c s r s', cref c s = Ok (r, s') -> inv s -> fresh [] s ->
      extends (vols s) (vols s') /\ cnt s <= cnt s' /\ inv s' /\ bound [] s s' /\
      (nonone (vols s') -> sem sigma cden s -> sem sigma cden s' /\ rden sigma (vols s') r (cden c))) ->
+  (forall c s r s', cref c s = Ok (r, s') -> nonone (vols s) -> nonone (vols s') /\ r <> None) ->
   forall (t : tree Z) s r s',
-  leaves_ok nz t -> to_t4 cref orig u0 u1 t s = Ok (r, s') -> inv s -> fresh (ids_of t) s ->
-  extends (vols s) (vols s') /\ cnt s <= cnt s' /\ inv s' /\ bound (ids_of t) s s' /\
-  (nonone (vols s') -> sem sigma cden s ->
-   sem sigma cden s' /\ rden sigma (vols s') r (tden sigma cden t)).
+  leaves_ok nz t -> to_t4 cref orig u0 u1 t s = Ok (r, s') ->
+  inv s -> fresh (ids_of t) s -> nonone (vols s) -> sem sigma cden s ->
+  exists id, r = Some id /\ extends (vols s) (vols s') /\ cnt s <= cnt s' /\ inv s' /\
+             bound (ids_of t) s s' /\ nonone (vols s') /\ sem sigma cden s' /\
+             Vden sigma (vols s') id (tden sigma cden t).
 Proof.
-  intros sigma cden cref orig u0 u1 H0 H1 Hc Hcref t s r s' Hnz H Hi Hf.
-  exact (to_t4_sound sigma cden cref orig u0 u1 H0 H1 Hc Hcref t Hnz s r s' H Hi Hf).
+  intros sigma cden cref orig u0 u1 H0 H1 Hc Hspec Hsome.
+  exact (to_t4_sound_total sigma cden cref orig u0 u1 H0 H1 Hc Hspec Hsome).
 Qed.
 Print Assumptions C01_to_t4_cell_sound.
 
-From T4V Require Import C01.ProofsCells C01.ProofsPrune.
-
-(* convert_cellref (any fuel) meets the specification that C01_to_t4_cell_sound
-   assumed, when [cden] is the region of every cell of the table and the cells'
-   surfaces are well formed (ids <> 0, facets >= 1).  The tree handed to
-   pot_to_t4_cell by pot_flag/pot_expand_surfs/pot_optimise has distinct fresh
-   node ids (proved inside: flag_ids, expand_ok, optimise_ids). *)
+(* the real convert_cellref (any fuel) meets both halves of that contract when
+   [cden] is the region of every cell of the table and the cells' surfaces are
+   well formed (ids <> 0, facets >= 1): it always returns a volume id, which
+   denotes the referenced cell (the stand-in PLUS u0 MINUS u0 when the cell is
+   empty).  Inside: pot_flag/pot_expand_surfs/pot_optimise hand pot_to_t4_cell a
+   tree with distinct fresh node ids (flag_ids, expand_ok, optimise_ids). *)
 Theorem C01_convert_cellref : forall sigma cden cells matching u0 u1,
   0 < u0 -> 0 < u1 -> consistent sigma u0 u1 ->
   (forall c g orig, lookup c cells = Some (g, orig) ->
      leaves_ok (msurf_ok matching) g /\ cden c = mden sigma cden matching g) ->
-  forall fuel c s r s', convert_cellref fuel cells matching u0 u1 c s = Ok (r, s') -> inv s ->
-  extends (vols s) (vols s') /\ cnt s <= cnt s' /\ inv s' /\ bound [] s s' /\
-  (nonone (vols s') -> sem sigma cden s -> sem sigma cden s' /\ rden sigma (vols s') r (cden c)).
-Proof.
-  intros sigma cden cells matching u0 u1 H0 H1 Hc Hok fuel c s r s' H Hi.
-  exact (convert_cellref_spec sigma cden cells matching u0 u1 H0 H1 Hc Hok fuel c s r s' H Hi
-           (fresh_nil s)).
-Qed.
+  forall fuel c s r s', convert_cellref fuel cells matching u0 u1 c s = Ok (r, s') ->
+  inv s -> nonone (vols s) -> sem sigma cden s ->
+  exists id, r = Some id /\ extends (vols s) (vols s') /\ cnt s <= cnt s' /\ inv s' /\
+             bound [] s s' /\ nonone (vols s') /\ sem sigma cden s' /\
+             Vden sigma (vols s') id (cden c).
+Proof. exact convert_cellref_total. Qed.
 Print Assumptions C01_convert_cellref.
 
 (* the table left by construct_volume_t4's loop (pot_convert of every cell of the
    conversion list from the empty state, root copied under the cell number,
-   fictive = False).  If no operand is None: each listed cell k has a
-   non-FICTIVE volume numbered k that denotes the cell, or has no volume and is
-   empty at sigma; and every non-FICTIVE volume is a listed cell. *)
+   fictive = False): no operand is None; each listed cell k has a non-FICTIVE
+   volume numbered k that denotes the cell, or has no volume and is empty at
+   sigma; and every non-FICTIVE volume is a listed cell. *)
 Theorem C01_cells : forall sigma cden cells matching u0 u1 fuel todo cnt0 s',
   0 < u0 -> 0 < u1 -> consistent sigma u0 u1 ->
   (forall c g orig, lookup c cells = Some (g, orig) ->
      leaves_ok (msurf_ok matching) g /\ cden c = mden sigma cden matching g) ->
   NoDup todo -> (forall k, In k todo -> k <= cnt0) ->
   convert_cells fuel cells matching u0 u1 todo (mkSt cnt0 [] [] []) = Ok s' ->
-  no_none (vols s') = true ->
+  nonone (vols s') /\
   (forall k, In k todo ->
      (exists v, lookup k (vols s') = Some v /\ v_fict v = false /\ Vden sigma (vols s') k (cden k)) \/
      (lookup k (vols s') = None /\ cden k = false)) /\
   (forall k v, lookup k (vols s') = Some v -> v_fict v = false -> In k todo).
 Proof.
-  intros sigma cden cells matching u0 u1 fuel todo cnt0 s' H0 H1 Hc Hok Hnd Hle H Hnn.
-  exact (cells_table sigma cden cells matching u0 u1 H0 H1 Hc Hok fuel todo cnt0 s' Hnd Hle H Hnn).
+  intros sigma cden cells matching u0 u1 fuel todo cnt0 s' H0 H1 Hc Hok Hnd Hle H.
+  exact (cells_table sigma cden cells matching u0 u1 H0 H1 Hc Hok fuel todo cnt0 s' Hnd Hle H).
 Qed.
 Print Assumptions C01_cells.
 
@@ -115,13 +113,12 @@ Theorem C01_partition_partial : forall sigma cden cells matching u0 u1 fuel todo
      leaves_ok (msurf_ok matching) g /\ cden c = mden sigma cden matching g) ->
   NoDup todo -> (forall k, In k todo -> k <= cnt0) ->
   convert_cells fuel cells matching u0 u1 todo (mkSt cnt0 [] [] []) = Ok s' ->
-  no_none (vols s') = true ->
   cden c = true -> (forall c', In c' todo -> cden c' = true -> c' = c) ->
   (In c todo -> forall k, in_volume sigma (vols s') k <-> k = c) /\
   (~ In c todo -> forall k, ~ in_volume sigma (vols s') k).
 Proof.
-  intros sigma cden cells matching u0 u1 fuel todo cnt0 s' c H0 H1 Hc Hok Hnd Hle H Hnn Hown Huniq.
-  exact (partition sigma cden cells matching u0 u1 H0 H1 Hc Hok fuel todo cnt0 s' c Hnd Hle H Hnn Hown Huniq).
+  intros sigma cden cells matching u0 u1 fuel todo cnt0 s' c H0 H1 Hc Hok Hnd Hle H Hown Huniq.
+  exact (partition sigma cden cells matching u0 u1 H0 H1 Hc Hok fuel todo cnt0 s' c Hnd Hle H Hown Huniq).
 Qed.
 Print Assumptions C01_partition_partial.
 
